@@ -335,6 +335,86 @@ func genJoin(r *kit.Rand, size int) []string {
 	return ops
 }
 
+// ---- join.on() ----
+
+func genJoinOn(r *kit.Rand) []string {
+	n := 2
+	if r.Chance(1, 8) {
+		n = 3 // outside the claimed domain: tie only
+	}
+	tol := kit.Pick(r, []int64{0, 0, 10})
+	fill := kit.Pick(r, []string{"none", "null", "null", "i:0", "f:" + kit.F64(1.5)})
+	names := []string{"a", "b", "c"}[:n]
+	specParent := r.Intn(n) // the parent grouped by host AND cpu; the others are grouped by host only
+	hosts := kit.Pick(r, [][]string{{"x"}, {"x", "y"}})
+	cpus := kit.Pick(r, [][]string{{"1"}, {"1", "2"}})
+	step := int64(1)
+	if tol > 0 {
+		step = 10
+	}
+	type it struct {
+		t                  int64
+		dims, tags, fields string
+	}
+	seqs := make([][]it, n)
+	id := 1
+	dupGeneral := r.Chance(1, 10) // two general points at one time: outside the claimed domain
+	lagging := -1
+	if r.Chance(1, 3) {
+		lagging = r.Intn(n)
+	}
+	t := int64(1000)
+	for slot := 0; slot < 3+r.Intn(6); slot++ {
+		t += int64(kit.Pick(r, []int{1, 1, 2, 3, 5})) * step
+		for _, h := range hosts {
+			for i := 0; i < n; i++ {
+				if i == lagging && r.Chance(1, 2) {
+					continue
+				}
+				jit := func() int64 {
+					if tol > 1 && r.Chance(1, 2) {
+						return int64(r.Intn(int(tol))) - tol/2
+					}
+					return 0
+				}
+				if i == specParent {
+					for _, c := range cpus {
+						for k := kit.Pick(r, []int{0, 1, 1, 1, 2}); k > 0; k-- {
+							seqs[i] = append(seqs[i], it{t + jit(), "h,c", fmt.Sprintf("h=%s,c=%s,z=q", h, c), fmt.Sprintf("v=i:%d", id)})
+							id++
+						}
+					}
+				} else {
+					k := kit.Pick(r, []int{0, 1, 1, 1})
+					if dupGeneral && r.Chance(1, 3) {
+						k = 2
+					}
+					for ; k > 0; k-- {
+						seqs[i] = append(seqs[i], it{t + jit(), "h", fmt.Sprintf("h=%s,z=p", h), fmt.Sprintf("v=i:%d", id)})
+						id++
+					}
+				}
+			}
+		}
+	}
+	lens := make([]int, n)
+	for i := range seqs {
+		sort.SliceStable(seqs[i], func(a, b int) bool { return seqs[i][a].t < seqs[i][b].t })
+		lens[i] = len(seqs[i])
+	}
+	cfg := fmt.Sprintf("n=%d tol=%d names=%s fill=%s on=h", n, tol, strings.Join(names, ","), fill)
+	var ops []string
+	for _, pat := range []int{r.Intn(2), 2 + r.Intn(2), 4} {
+		ops = append(ops, "join new "+cfg)
+		for _, a := range merge(r, lens, pat) {
+			x := seqs[a[0]][a[1]]
+			ops = append(ops, fmt.Sprintf("j pt %d %d name=m%d byname=0 dims=%s tags=%s fields=%s", a[0], x.t, a[0], x.dims, x.tags, x.fields))
+		}
+		ops = append(ops, "j fin")
+	}
+	return ops
+}
+
 // ---- batch join ----
 
 func genJoinBatch(r *kit.Rand) []string {
@@ -458,6 +538,8 @@ func generate(out *kit.Out, r *kit.Rand, n int, tier string) {
 			emit(out, fmt.Sprintf("u%d", i), execCase(genUnion(g)))
 		case 5:
 			emit(out, fmt.Sprintf("b%d", i), execCase(genJoinBatch(g)))
+		case 6:
+			emit(out, fmt.Sprintf("o%d", i), execCase(genJoinOn(g)))
 		default:
 			emit(out, fmt.Sprintf("j%d", i), execCase(genJoin(g, 3+g.Intn(6))))
 		}
